@@ -64,7 +64,7 @@ func (Engine) Describe(property string) core.Description {
 			"eleven validity windows relative to the bubble clock (four of them 5 s / 90 s from a boundary); five extended-key-usage variants), revoke one with MsgRevokeCertificate, jump the clock (1s..400d), or open a connection with a drawn credential " +
 			"(genuine, forged = attacker key + copied CN/issuer/serial, revoked, never registered, expired / not yet valid by dates or by clock jump, wrong usage, two-certificate chain, none; optionally resuming a " +
 			"TLS session with a ticket collected earlier with that certificate; optionally a leaf naming the victim but issued by the attacker's own CA) under a drawn chain-query fault (error, hang then error, " +
-			"hang then late answer), optionally preceded by a handshake on which the client vanishes, and send 1-3 requests on it (first a well-formed lease/deployment request as authentication " +
+			"hang then late answer), optionally preceded by a handshake on which the client vanishes, and send 1-3 requests on it; or let two clients overlap (the first one's handshake waits 3 s of bubble time for a truthful chain answer while the second one completes a handshake and a request, then the first one's answer arrives and it sends its request; each is judged by itself) (first a well-formed lease/deployment request as authentication " +
 			"probe, then requests with hostile path, query, header and number material). After every request the recording back-end stubs are inspected: (a) an owner-scoped call implies that the presented leaf is " +
 			"byte-identical to a certificate the harness registered for that CN+serial, unrevoked by the harness' own model, inside its validity window at bubble time, allows client authentication, was presented " +
 			"alone, and that the chain query of that handshake was not faulted; (b) every id handed to a stub names the authenticated account and this provider. " +
@@ -84,7 +84,7 @@ func (Engine) Describe(property string) core.Description {
 			"acceptance is observed at the back-end boundary (owner-scoped stub reached); a route that fails earlier (404/400/401) is not an acceptance",
 			"only the stated direction is checked (accepted => genuine); that genuine clients are accepted is a reach probe, not an obligation",
 			"authentication is judged per TLS handshake; a connection kept open across a revocation or expiry is not exercised (connections are closed at the end of each operation)",
-			"handshakes are never concurrent; concurrent requests (Layer 2) use connections established one after the other; sampling: held on everything explored, not a proof"},
+			"two handshakes overlap only in the 'overlapping handshakes' operation (one waits for a slow chain answer while another client completes a handshake and a request; the order is fixed by the bubble clock); handshakes racing each other statement by statement are not explored; concurrent requests (Layer 2) use connections established one after the other; sampling: held on everything explored, not a proof"},
 		RequiredProbes: []string{"probe:genuine-accepted", "probe:forged-presented", "probe:revoked-presented", "probe:expired-by-clock-jump", "probe:not-yet-valid-presented",
 			"probe:chain-presented", "probe:wrong-usage-presented", "probe:hostile-path", "probe:backend-reached", "fault:chain-query-error",
 			"fault:chain-query-slow", "probe:foreign-issuer-presented", "probe:reconnect-with-session-cache"},
